@@ -34,6 +34,15 @@ WorldsSwap == <<
   W({<<1, 1, It(1, <<1, 0>>)>>, <<2, 0, It(1, <<1>>)>>, <<2, 1, It(1, <<2>>)>>, <<2, 2, It(1, <<0>>)>>,
      <<2, 3, It(1, <<>>)>>, <<-1, 0, It(1, <<0>>)>>, <<3, 1, It(1000, <<1>>)>>}) >>
 
+\* Small (single-message) worlds of equal checksum: values swap between two items, a value moves between the
+\* fields of one item.  With two acknowledgements in flight (reordered, duplicated) a sender that announces
+\* another base than the one it diffs against, or a receiver that applies a delta to another snapshot than
+\* the named base, is not stopped by the checksum.
+WorldsNeutral == <<
+  W({<<1, 1, It(1, <<1, 0>>)>>, <<2, 0, It(1, <<1>>)>>, <<2, 1, It(1, <<2>>)>>}),
+  W({<<1, 1, It(1, <<1, 0>>)>>, <<2, 0, It(1, <<2>>)>>, <<2, 1, It(1, <<1>>)>>}),
+  W({<<1, 1, It(1, <<0, 1>>)>>, <<2, 0, It(1, <<1>>)>>, <<2, 1, It(1, <<2>>)>>}) >>
+
 \* UUID types with different item lengths: the renumbering makes one raw key change its length
 WorldsClash == <<
   W({<<-2, 1, It(1, <<7, 7>>)>>}),
